@@ -72,6 +72,13 @@ func (k msgServer) Binding(goCtx context.Context, msg *types.MsgBinding) (*types
 		return nil, types.ErrBindingExists
 	}
 
+	// the signed message must be about this did and this timestamp: otherwise a proof the
+	// account once signed for any purpose could be replayed for another did, at any time
+	if !strings.Contains(proof.Message, did) || !strings.Contains(proof.Message, "Timestamp: "+fmt.Sprint(proof.Timestamp)) {
+		logger.Error("proof message does not name the did and timestamp", "accountId", accId, "did", did)
+		return nil, types.ErrInvalidBindingProof
+	}
+
 	if err := k.verifyBindingProof(ctx, caip10, proof); err != nil {
 		logger.Error("verify proof failed!!", "accountId", accId, "err", err)
 		return nil, err
